@@ -1,17 +1,21 @@
 /-!
-# Player state (C11) — model of `mpf/core/player.py` + the per-player state of a persisting game-mode device
+# Player state (C11) — model of `mpf/core/player.py` + the per-player state of persisting game-mode devices
 
-`players : List Vars`, one insertion-ordered variable dictionary per player (`Player.vars`).  A game-mode logic block
-with `persist_state: true` keeps its state object in the current player's dictionary under `<name>_state`
-(`logic_blocks.py device_loaded_in_mode`); the device itself only holds a *pointer* (`dev`: whose dictionary) that is
-set when the mode starts with a ball and dropped when the mode stops at ball end (`device_removed_from_mode`).
-`setVar` = `Player.__setattr__` (value stored, one `player_<name>` event with value / prev_value / change /
+`players : List Vars`, one variable dictionary per player (`Player.vars`).  A game-mode device that persists keeps its
+state in the current player's dictionary under its own key (`<counter>_state` object of a logic block, `shot_<name>`
+profile state, `shot_<name>_enabled` persisted enable flag, the entry of `player.achievements`, `<mode>_<timer>_tick`);
+the device itself only holds a *pointer* (`dev`: whose dictionary) that is set when the mode starts with a ball and
+dropped when the mode stops at ball end.  A device is abstract here (`Dev`): its key, the state a player starts
+with (`fresh`), what it makes of the stored state when the mode starts (`load`: the identity for logic blocks, shots
+and enable flags; started→stopped for an achievement without `restart_on_next_ball_when_started`; the start value for a
+timer, whose ticks live in a player variable but restart with every ball) and its reaction to its control events
+(`act`).  `setVar` = `Player.__setattr__` (value stored, one `player_<name>` event with value / prev_value / change /
 player_num when the value changed or the variable is new).  Values are immutable here, so two players can never
-share a mutable initial value by construction — on the implementation that is sampled by the correspondence run.
+share a mutable state object by construction — on the implementation that is sampled by the correspondence run.
 
 Game flow: `startGame`, `addPlayer`, `drain` (ball end: extra ball → same player again; else next player / next
-ball / game over), `endGame`; `hit` counts the persisting counter (`count_complete_value = goal`,
-`reset_on_complete: false`, `disable_on_complete: true`).
+ball / game over), `endGame`; `dev d code` sends control event `code` to device `d`, `swap d1 d2` is a two-shot
+shot-group rotation.
 -/
 namespace MpfVerif.Player
 
@@ -56,12 +60,18 @@ def setVar (m : Vars) (num : Nat) (k : String) (v : Val) : Vars × List Ev :=
   let ch := changeOf v prev
   (put m k v, if (truthy ch || isNew) && isScalar v then [⟨k, v, prev, ch, num⟩] else [])
 
+/-- a persisting game-mode device, abstractly -/
+structure Dev where
+  key : String                 -- the player variable its state lives under
+  fresh : Val                  -- state of a player who never had it
+  load : Val → Val             -- what the device makes of the stored state when the mode (re)starts
+  act : Nat → Val → Val        -- reaction to control event number `code`
+
 structure Cfg where
   initVars : List (String × Val) := []     -- player_vars section: (name, initial value)
   ballsPerGame : Nat := 3
   maxPlayers : Nat := 4
-  goal : Int := 3                          -- count_complete_value of the persisting counter
-  deriving Repr
+  devs : List Dev := []
 
 structure St where
   players : List Vars := []
@@ -73,7 +83,8 @@ inductive Op
   | startGame | addPlayer
   | set (k : String) (v : Val)       -- player[k] = v on the current player (also variable_player action: set)
   | add (k : String) (d : Int)       -- variable_player action: add (int)
-  | hit
+  | dev (d : Nat) (code : Nat)       -- control event `code` for device number `d`
+  | swap (d1 d2 : Nat)               -- shot group rotation over two shots: their states change places
   | drain | endGame
   deriving DecidableEq, Repr
 
@@ -88,8 +99,6 @@ def broadcast (m : Vars) (num : Nat) : List Ev :=
     | .str s => some ⟨kv.1, .str s, .str s, .bool false, num⟩
     | _ => none)
 
-def stateKey : String := "cp_state"
-
 def modify (ps : List Vars) (i : Nat) (f : Vars → Vars) : List Vars :=
   match ps, i with
   | [], _ => []
@@ -103,32 +112,28 @@ def setOn (s : St) (i : Nat) (k : String) (v : Val) : St × List Ev :=
   let r := setVar (varsOf s i) (i + 1) k v
   ({ s with players := modify s.players i (fun _ => r.1) }, r.2)
 
-/-- the game mode starts with player `i`'s ball: the counter takes the stored state, or creates and enables one -/
-def modeStart (s : St) (i : Nat) : St :=
-  match get (varsOf s i) stateKey with
-  | some _ => { s with dev := some i }
-  | none => { s with dev := some i,
-                     players := modify s.players i (fun m => put m stateKey (.blk 0 true false)) }
+/-- every device takes the stored state (through `load`), or creates a fresh one -/
+def loadAll : List Dev → Vars → Vars
+  | [], m => m
+  | d :: r, m => loadAll r (put m d.key (match get m d.key with | some v => d.load v | none => d.fresh))
+
+/-- the game mode starts with player `i`'s ball -/
+def modeStart (c : Cfg) (s : St) (i : Nat) : St :=
+  { s with dev := some i, players := modify s.players i (loadAll c.devs) }
 
 /-- a player's turn starts: `ball += 1`, then the ball (and with it the game mode) starts -/
-def turnStart (s : St) (i : Nat) : St × List Ev :=
+def turnStart (c : Cfg) (s : St) (i : Nat) : St × List Ev :=
   let ball := match get (varsOf s i) "ball" with | some (.int b) => b | _ => 0
   let r := setOn { s with cur := i } i "ball" (.int (ball + 1))
-  (modeStart r.1 i, r.2)
+  (modeStart c r.1 i, r.2)
 
 def intVar (m : Vars) (k : String) : Int := match get m k with | some (.int b) => b | _ => 0
-
-/-- `Counter.count` on the state object the device points at -/
-def countBlk (c : Cfg) : Val → Val
-  | .blk v true co =>
-    if v + 1 ≥ c.goal then (if co then .blk (v + 1) true co else .blk (v + 1) false true) else .blk (v + 1) true co
-  | x => x
 
 def step (c : Cfg) (s : St) : Op → St × List Ev
   | .startGame =>
     if s.players ≠ [] then (s, []) else
     let m := newVars c 0
-    let r := turnStart { players := [m], cur := 0, dev := none } 0
+    let r := turnStart c { players := [m], cur := 0, dev := none } 0
     (r.1, broadcast m 1 ++ r.2)
   | .addPlayer =>
     let n := s.players.length
@@ -141,32 +146,44 @@ def step (c : Cfg) (s : St) : Op → St × List Ev
     match (get (varsOf s s.cur) k).getD (.int 0) with
     | .int a => setOn s s.cur k (.int (a + d))
     | _ => (s, [])
-  | .hit =>
+  | .dev d code =>
     match s.dev with
     | none => (s, [])
     | some p => ({ s with players := modify s.players p (fun m =>
-        match get m stateKey with | some b => put m stateKey (countBlk c b) | none => m) }, [])
+        match c.devs[d]? with
+        | some dv => (match get m dv.key with | some v => put m dv.key (dv.act code v) | none => m)
+        | none => m) }, [])
+  | .swap d1 d2 =>
+    match s.dev with
+    | none => (s, [])
+    | some p => ({ s with players := modify s.players p (fun m =>
+        match c.devs[d1]?, c.devs[d2]? with
+        | some a, some b =>
+          (match get m a.key, get m b.key with
+           | some va, some vb => put (put m a.key vb) b.key va
+           | _, _ => m)
+        | _, _ => m) }, [])
   | .drain =>
     if s.players = [] then (s, []) else
     let s0 := { s with dev := none }             -- ball ending: the mode stops, the pointer is dropped
     let me := varsOf s0 s0.cur
     if intVar me "extra_balls" ≠ 0 then
       let r := setOn s0 s0.cur "extra_balls" (.int (intVar me "extra_balls" - 1))
-      (modeStart r.1 s0.cur, r.2)                -- shoot again: same player, `ball` not incremented
+      (modeStart c r.1 s0.cur, r.2)                -- shoot again: same player, `ball` not incremented
     else if intVar me "ball" ≥ c.ballsPerGame ∧ s0.cur + 1 = s0.players.length then
       ({ players := [], cur := 0, dev := none }, [])
-    else turnStart s0 (if s0.cur + 1 < s0.players.length then s0.cur + 1 else 0)
+    else turnStart c s0 (if s0.cur + 1 < s0.players.length then s0.cur + 1 else 0)
   | .endGame => ({ players := [], cur := 0, dev := none }, [])
 
 def run (c : Cfg) : St → List Op → St
   | s, [] => s
   | s, op :: rest => run c (step c s op).1 rest
 
-/-- what the counter device presents: the state object it points at -/
-def view (s : St) : Option Val :=
+/-- what device `d` presents: the state it points at -/
+def view (s : St) (d : Dev) : Option Val :=
   match s.dev with
   | none => none
-  | some p => get (varsOf s p) stateKey
+  | some p => get (varsOf s p) d.key
 
 /-! ## driver -/
 
@@ -198,15 +215,21 @@ def parseVal (t : String) : Option Val :=
   | 's' :: r => (unhex r).map (fun cs => .str (String.ofList cs))
   | _ => none
 
-def showVars (m : Vars) : String := ",".intercalate (m.map (fun kv => kv.1 ++ "=" ++ showVal kv.2))
+def insertKV (kv : String × Val) : Vars → Vars
+  | [] => [kv]
+  | x :: r => if kv.1 < x.1 then kv :: x :: r else x :: insertKV kv r
+
+def sortVars (m : Vars) : Vars := m.foldr insertKV []
+
+def showVars (m : Vars) : String := ",".intercalate ((sortVars m).map (fun kv => kv.1 ++ "=" ++ showVal kv.2))
 
 def showEv (e : Ev) : String := s!"{e.name}:{showVal e.value}:{showVal e.prev}:{showVal e.change}:{e.num}"
 
 def showOut (r : St × List Ev) : String :=
   let s := r.1
   let g := if s.players = [] then "-" else toString (s.cur + 1)
-  let v := match view s with | some b => showVal b | none => "-"
-  s!"cur={g} dev={v} ev=[{" ".intercalate (r.2.map showEv)}] pl=[{"|".intercalate (s.players.map showVars)}]"
+  let up := match s.dev with | some p => toString (p + 1) | none => "-"
+  s!"cur={g} mode={up} ev=[{" ".intercalate (r.2.map showEv)}] pl=[{"|".intercalate (s.players.map showVars)}]"
 
 def parseInit : List String → Option (List (String × Val))
   | [] => some []
@@ -215,22 +238,66 @@ def parseInit : List String → Option (List (String × Val))
     | [k, v] => pure ((k, ← parseVal v) :: (← parseInit r))
     | _ => none
 
+/-- `Counter.count` (`reset_on_complete: false`, `disable_on_complete: true`) -/
+def countBlk (goal : Int) : Val → Val
+  | .blk v true co =>
+    if v + 1 ≥ goal then (if co then .blk (v + 1) true co else .blk (v + 1) false true) else .blk (v + 1) true co
+  | x => x
+
+/-- the achievement state machine (`restart_after_stop_possible: true`, enable events configured) -/
+def achAct (code : Nat) (v : Val) : Val :=
+  match code, v with
+  | 0, .str "disabled" => .str "enabled" | 0, .str "started" => .str "enabled"
+  | 1, .str "enabled" => .str "started" | 1, .str "stopped" => .str "started"
+  | 2, .str "started" => .str "completed"
+  | 3, .str "started" => .str "stopped"
+  | 4, .str "enabled" => .str "disabled" | 4, .str "stopped" => .str "disabled"
+  | 5, _ => .str "disabled"
+  | _, x => x
+
+/-- the device kinds of the correspondence run -/
+def mkDev : List String → Option Dev
+  | ["counter", key, goal] => do
+    let g ← goal.toInt?
+    pure ⟨key, .blk 0 true false, id, fun code v => if code = 0 then countBlk g v else v⟩
+  | ["shot", key, n] => do
+    let k ← n.toNat?
+    pure ⟨key, .int 0, id, fun code v => match code, v with
+      | 0, .int s => if s + 1 < k then .int (s + 1) else .int s
+      | 1, _ => .int 0
+      | _, x => x⟩
+  | ["flag", key] => some ⟨key, .bool false, id, fun code v => if code = 0 then .bool true else if code = 1 then .bool false else v⟩
+  | ["ach", key, restart] =>
+    some ⟨key, .str "disabled", (fun v => if restart = "0" ∧ v = .str "started" then .str "stopped" else v), achAct⟩
+  | ["timer", key, start] => do
+    let st ← start.toInt?
+    pure ⟨key, .int st, fun _ => .int st, fun code v => match code, v with
+      | 0, .int t => .int (t + 2)
+      | 1, _ => .int 7
+      | _, x => x⟩
+  | _ => none
+
 def parseOp : List String → Option Op
   | ["start"] => some .startGame
   | ["addplayer"] => some .addPlayer
   | ["set", k, v] => (parseVal v).map (.set k)
   | ["add", k, d] => d.toInt?.map (.add k)
-  | ["hit"] => some .hit
+  | ["dev", d, code] => do pure (.dev (← d.toNat?) (← code.toNat?))
+  | ["swap", a, b] => do pure (.swap (← a.toNat?) (← b.toNat?))
   | ["drain"] => some .drain
   | ["endgame"] => some .endGame
   | _ => none
 
 def driverStep (cs : Cfg × St) (line : String) : (Cfg × St) × String :=
   match line.splitOn " " with
-  | "cfg" :: bpg :: mp :: goal :: rest =>
-    match bpg.toNat?, mp.toNat?, goal.toInt?, parseInit rest with
-    | some b, some m, some g, some iv => (({ initVars := iv, ballsPerGame := b, maxPlayers := m, goal := g }, {}), "ok")
-    | _, _, _, _ => (cs, "bad-op")
+  | "cfg" :: bpg :: mp :: rest =>
+    match bpg.toNat?, mp.toNat?, parseInit rest with
+    | some b, some m, some iv => (({ initVars := iv, ballsPerGame := b, maxPlayers := m }, {}), "ok")
+    | _, _, _ => (cs, "bad-op")
+  | "device" :: rest =>
+    match mkDev rest with
+    | some d => (({ cs.1 with devs := cs.1.devs ++ [d] }, cs.2), "ok")
+    | none => (cs, "bad-op")
   | toks =>
     match parseOp toks with
     | some op => let r := step cs.1 cs.2 op; ((cs.1, r.1), showOut r)
